@@ -155,7 +155,7 @@ def c19(ctx):
     ctx.build_harness()
     cfgp = os.path.join(ctx.scratch, "MC_Zip.cfg")
     if not quick:
-        s = open(cfgp).read().replace("Names <- NamesQuick", "Names <- NamesAll").replace("Sizes = {0, 5, 40}", "Sizes = {0, 5, 12, 300}").replace("Extras = {0}", "Extras = {0, 9}")
+        s = open(cfgp).read().replace("Names <- NamesQuick", "Names <- NamesAll").replace("Sizes = {0, 5, 40}", "Sizes = {0, 12, 300}")
         open(cfgp, "w").write(s)
     r = ctx.tlc_expect_ok("MC_Zip.tla", "MC_Zip.cfg", timeout=7000, xmx="30g")
     rp = os.path.join(ctx.scratch, "zip.json")
